@@ -91,7 +91,7 @@ UnwoundCollect(u) ==
     /\ \/ /\ op.phase = "unwinding"                       \* the source (or a destructor) panicked
           /\ (Strict => AllGotDropped)
        \/ /\ op.phase = "idle" /\ PanickingForm           \* the length-error panic
-          /\ u.msg = ExpectedMsg
+          /\ u.has_expected_msg                          \* the message says: expected N items
           /\ AllGotDropped
           /\ ~(Exact /\ ~Ruled /\ op.truthful)
     /\ life' = [e \in DOMAIN life |->
